@@ -35,7 +35,7 @@ ASSUMPTIONS = [
 ]
 MIN_EVENTS = {
     'quick': {'oracle.rejected-unchanged': 22000, 'battery.rejected': 14000, 'readonly.calls': 2500, 'mutators.with-rejection': 95},
-    'thorough': {'oracle.rejected-unchanged': 400000, 'battery.rejected': 250000, 'readonly.calls': 2500, 'mutators.with-rejection': 95},
+    'thorough': {'oracle.rejected-unchanged': 320000, 'battery.rejected': 100000, 'readonly.calls': 2500, 'mutators.with-rejection': 95},
 }
 
 BASE = (
@@ -207,6 +207,18 @@ def mutators(c):
     add('CSSStyleDeclaration.top=', st, setter('top'), VALUES)
     add('CSSStyleDeclaration.removeProperty', st, lambda t, a: t.removeProperty(a), NAMES)
     add('CSSStyleDeclaration.setProperty(Property)', st, lambda t, a: t.setProperty(css.Property(a[0], a[1])), [((n, v), 'mixed') for n, _ in NAMES[:4] for v, _ in VALUES])
+
+    def set_lenient_property(t, a):
+        # a Property object made while errors are only logged can carry parts a raising setter refuses later
+        c.log.raiseExceptions = False
+        try:
+            p = css.Property(a[0], a[1], a[2])
+        finally:
+            c.log.raiseExceptions = True
+        t.setProperty(p)
+
+    add('CSSStyleDeclaration.setProperty(Property made in log mode)', st, set_lenient_property,
+        [((n, v, pr), 'nested') for n in ('left', 'top', 'bottom', 'COLOR') for v in ('2px', 'red', '1px )', '') for pr in ('', 'important', '!foo', 'x y', '!important !')])
     for label, locate in (('page', lambda s: (find(s, 'CSSPageRule'), find(s, 'CSSPageRule').style)), ('font-face', lambda s: (find(s, 'CSSFontFaceRule'), find(s, 'CSSFontFaceRule').style)),
                           ('nested', lambda s: (find(s, 'CSSMediaRule'), find(s, 'CSSMediaRule').cssRules[0].style))):  # fmt: skip
         add('%s CSSStyleDeclaration.cssText' % label, locate, setter('cssText'), DECLS)
